@@ -68,7 +68,14 @@ func genC42(r *Rand, n int, tier string, emit func(string)) {
 			for k := r.Intn(4); k > 0; k-- {
 				tail += fmt.Sprintf(" %s:g:0:%d:0:0:-", Pick(r, "s", "bs"), pipeLat(r))
 			}
-			emit(pipeTurnScenario(r, r.Bool(), tail+Pick(r, "", " stopbg", " settle pc")))
+			holdA := r.Bool()
+			end := Pick(r, "", " stopbg", " settle pc")
+			if holdA && end == " settle pc" {
+				// a block held inside ApplyFunc must be released before the pipeline can be
+				// expected to come to rest (otherwise "unsettled" is the scenario's doing)
+				end = " rel settle pc"
+			}
+			emit(pipeTurnScenario(r, holdA, tail+end))
 			continue
 		}
 		dw := Pick(r, 1, 2, 3, 4, 8, 16, 1+r.Intn(16))
